@@ -9,10 +9,50 @@ CLAIMED = {
             "Seeded simulated sessions against real PEPit with the solver behind a seam: a TAGGED peer returns pairwise distinct numbers so every exposed multiplier is attributed exactly to the row / cone that carried its constraint (both transports, fall-backs, licence faults); a REAL peer (CLARABEL) checks the identity, signs and PSD-ness and that the dual-mode value is the constant of the identity. Sampling, not proof.",
             "rows identified by functional at two generic probes; MOSEK transport is a stand-in written from the documented API (KKT self-checked); REAL thresholds 1e-4 relative",
             "deterministic simulation: scripted/tagged solver peer at the cvxpy and MOSEK seams, seeded session search"),
+    "C02": ("exploration", "6 C02",
+            "Same sessions, primal side: with a TAGGED peer (slightly indefinite Gram tag) the Gram matrix of the evaluated leaf points must be the PSD projection of the peer's G, every leaf expression the peer's F entry, every handle (built before or after the solve) its harness denotation at the leaf values; with a REAL peer every delivered constraint / LMI holds and the objective is the smallest metric.",
+            "leaf counters are the SDP column indices; REAL thresholds 1e-3 relative (CLARABEL), 5e-3 (SCS); MOSEK stand-in",
+            "deterministic simulation: tagged/real solver peer at the seams, independent ledger of denotations"),
+    "C04": ("exploration", "6 C04",
+            "Declaration schedules: the same logical sample DAG is linearised in several random admissible orders (stationary point early/late, differentiable evaluations permuted, constraints anywhere); the class rows / LMIs generated must be the same set over canonical leaf labels (TAGGED) and give the same value (REAL); every table cell must hold a condition iff its two samples differ by identity; for classes documenting necessary-and-sufficient conditions the value must not change under duplicated / aliased / extra samples.",
+            "necessary-only classes are only required not to increase; REAL thresholds 1e-4 (1e-3 with an aliasing equality); interpolant construction not decided",
+            "deterministic simulation: seeded schedule search over linearisations of a declaration DAG, twin forks"),
     "C05": ("exploration", "6 C05",
             "Exactly-once delivery and content of every declared constraint / LMI / metric at the solver seam, at every solve of a seeded session history, on both transports (dense cvxpy, sparse stand-in MOSEK), against an independent ledger of what the session declared.",
             "class items expected at a solve = objects created inside add_class_constraints / add_partition_constraints during that solve; functionals compared at two generic probes",
             "deterministic simulation: seam capture of the SDP vs session ledger, seeded session search"),
+    "C07": ("exploration", "6 C07",
+            "Histories of 5-40 oracle / gradient / value / stationary / fixed-point / step / add_point operations on leaf functions and combinations (zero and cancelling weights, nesting) against a reference model of the bookkeeping; invariants I1-I4 evaluated after every operation over every function's recorded samples and everything returned so far.",
+            "decompositions compared at 1e-11 relative; direct declarations on identically-zero combinations are a listed finding (K-18)",
+            "deterministic simulation: seeded operation histories against an executable reference model"),
+    "C11": ("exploration", "6 C11",
+            "One session executed through the cvxpy transport and through a stand-in MOSEK peer from twin forks: the SDPs captured at the two seams must be the same multiset of rows / LMIs / objective, values must agree (REAL), multipliers and primal values must be attributed exactly in the exposed sign convention on each side (TAGGED), and a solve that works on one transport must work on the other; includes >= 129 rows, LMI creation order != sending order, leaves created during class generation, heuristics, licence faults.",
+            "verdicts are relative to the stand-in's reading of the MOSEK documentation; the stand-in self-checks the MOSEK-form KKT system on every REAL solve",
+            "deterministic simulation: two simulated solver peers, seam equivalence, seeded session search"),
+    "C12": ("exploration", "6 C12",
+            "Model B after a seeded history of up to 6 earlier models ended built / solved / failed (scripted solver, licence, option faults) / interrupted (KeyboardInterrupt at a line event, stream error at a write) / abandoned, versus B alone in a pristine fork: solver input compared bit for bit (cvxpy constants and structure / literal MOSEK call sequence), and all results, evaluations, dual tables, names and counters bit for bit.",
+            "CLARABEL / SCS bit-reproducibility across processes (measured); interrupt granularity = source line",
+            "deterministic simulation: crash-point and fault injection over process histories, pristine twin"),
+    "C13": ("exploration", "6 C13",
+            "Re-solve histories: 2-5 rounds of edit / option or transport change / optional failing solve / solve / evaluation of held handles, each round compared with a freshly built equivalent model in a pristine fork (value, seam sizes exactly), freshness of every held handle (exact with disjoint tags per round), multipliers and delivery of the latest solve.",
+            "evaluations right after a failed round are not judged; REAL value threshold 1e-4",
+            "deterministic simulation: seeded solve/edit histories with fault injection, pristine twin per round"),
+    "C14": ("exploration", "6 C14",
+            "The two-phase exchange with the solver under every heuristic / tolerance / regularisation / transport: all problems captured at the seam; dual value and multipliers must be those of problem 1 (twin without heuristic, exact), problem n = problem 1 + the single row objective >= wc - tol with objective <W, G>, primal value within tol, final instance feasible, trace not increased; scripted faults on calls >= 2.",
+            "spontaneous SolverError of the real solver = no verdict; thresholds 1e-4 relative",
+            "deterministic simulation: seam capture of a multi-call exchange, second-phase fault injection, twin"),
+    "C15": ("exploration", "6 C15",
+            "Histories of get_block requests over 1-3 partitions (leaf points, combinations, aliases, gradients, repeated, some never decomposed) with invariants after every request (sum-back, same object, d = 1 identity) and, at every TAGGED solve, the relations delivered at the seam per partition compared as a set with the harness's own reference model of all cross-block orthogonalities, plus a concrete coordinate-projection model.",
+            "set semantics (multiplicity is C05 / C13); functionals at two generic probes",
+            "deterministic simulation: seeded histories against an executable reference model, seam capture"),
+    "C16": ("fault_enumeration", "6 C16",
+            "Enumerated fault matrix: object kind x accessor x state (never solved / solve returned None / solve raised / built after a failed solve) must raise ValueError; every no-solution status x transport on the first solver call must make solve return None; second-phase and undetermined statuses and raised solver errors must never give a number different from the fault-free twin's; invalid options must raise; plus genuinely unbounded / infeasible models on a REAL peer.",
+            "constants (objects depending on no leaf) are outside the must-raise matrix; the stand-in's certificate content is arbitrary non-zero numbers",
+            "deterministic simulation: enumerated solver / licence / status fault injection at both seams"),
+    "C17": ("exploration", "6 C17",
+            "get_class_constraints_duals() of every leaf function after every successful TAGGED solve: entry (i, j) must be the number the peer returned for the seam row whose functional is the constraint the class's pair formula gives for samples (i, j), 0 elsewhere; shapes and labels = samples; every class constraint's name must address its own cell; must not raise.",
+            "pair (i, j) defined by the lists the class passes to the generic table builders; rows identified by functional",
+            "deterministic simulation: tagged solver peer, seam-row attribution of table cells"),
 }
 
 NOT_APPLICABLE = {
